@@ -159,7 +159,8 @@ OP_KINDS = ["diy", "dim", "wiy", "diyr", "leap", "cwds", "owds", "d1ad",
             "dump", "strptime", "dur_cmp", "dur_secs", "rec_list",
             "rec_valid", "rec_after", "rec_getitem", "rec_open", "rec_next",
             "hold", "held_add", "held_reprs", "dto_proc", "dto_diff", "cli",
-            "trunc_add", "consts", "props_epoch", "xuse", "xuse"]
+            "trunc_add", "consts", "props_epoch", "xuse", "xuse",
+            "from_epoch_l"]
 
 
 def gen_op(rng, kind, hot, handles):
@@ -234,6 +235,10 @@ def gen_op(rng, kind, hot, handles):
             [0, 86400 * 59, 86400 * 365, 951782400, -86400 * 400,
              86400 * 360 * 30, rng.randint(-10 ** 10, 10 ** 10),
              rng.randint(-3 * 10 ** 10, 3 * 10 ** 10), 13 * 10 ** 9])]
+    if kind == "from_epoch_l":
+        return ["from_epoch_l", rng.choice(
+            [0, 3600, 86400 * 45, 86400 * 59, 951782400, -86400 * 400,
+             rng.randint(-10 ** 10, 10 ** 10)])]
     if kind == "props_epoch":
         return ["props_epoch", rng.choice(
             [0, 86400 * 59, 951782400, -86400 * 400, 86400 * 360 * 30,
@@ -387,7 +392,11 @@ def gen_random(rng, index):
             step["force"] = True
         steps.append(step)
     return {"property": PROP, "kind": "random", "index": index,
-            "clients": sps, "cache_max": cache_max, "steps": steps}
+            "clients": sps, "cache_max": cache_max, "steps": steps,
+            # the process's local zone: fixed for the run, often not UTC
+            # (conversions to local time west of UTC reach back into 1969)
+            "zone_minutes": rng.choice([0, 0, -300, 330, -210, 60, -720,
+                                        765, -1])}
 
 
 def gen_perturbation(rng):
@@ -464,7 +473,9 @@ def directed_ops():
     for xi, (xkind, text) in enumerate(X_VALUES):
         for action in X_ACTIONS[xkind]:
             ops.append(["xuse", "x%d" % xi, xkind, text, action])
-    ops += [["cli", ["2000-01-01T00:00:00Z", "--offset=P150000D"]],
+    ops += [["from_epoch_l", 0], ["from_epoch_l", 86400 * 45],
+            ["from_epoch_l", 951782400], ["from_epoch_l", -86400 * 400],
+            ["cli", ["2000-01-01T00:00:00Z", "--offset=P150000D"]],
             ["from_epoch", 13 * 10 ** 9], ["from_epoch", -2 * 10 ** 10],
             ["props_epoch", 86400 * 59], ["props_epoch", 951782400],
             ["from_epoch", 0], ["from_epoch", 86400 * 59],
@@ -505,6 +516,8 @@ def gen_directed(rng, index):
         if variant and rng.random() < 0.05:
             steps.append(gen_perturbation(rng))
     return {"property": PROP, "kind": "directed", "index": index,
+            "zone_minutes": [0, -300, 330][variant % 3] if variant else
+            [-300, 0][index % 2],
             "clients": [a, b],
             "cache_max": None if variant < 2 else rng.choice([1, 2, 8]),
             "steps": steps}
@@ -538,6 +551,7 @@ class Shared(object):
     def __init__(self):
         from metomi.isodatetime import parsers, dumpers
         self.tp = parsers.TimePointParser(assumed_time_zone=(0, 0))
+        self.tp_local = parsers.TimePointParser()
         self.tp_trunc = parsers.TimePointParser(
             assumed_time_zone=(0, 0), allow_truncated=True)
         self.dp = parsers.DurationParser()
@@ -645,6 +659,13 @@ def do_op(sim, client, op):
             if kind == "from_epoch":
                 return canon(data.get_timepoint_from_seconds_since_unix_epoch(
                     op[1], utc=True))
+            if kind == "from_epoch_l":
+                # in the process's local zone, and through the %s parser
+                p1 = data.get_timepoint_from_seconds_since_unix_epoch(op[1])
+                p2 = sh.tp_local.strptime(str(abs(op[1])), "%s")
+                p3 = sh.tp_local.parse("2001-03-01T00:00:00")
+                return [canon(p1), canon(p2), canon(p3.to_utc()),
+                        p3.seconds_since_unix_epoch]
             if kind == "props_epoch":
                 props = (
                     data.get_timepoint_properties_from_seconds_since_unix_epoch(
@@ -1048,7 +1069,7 @@ class Sim(object):
     # ---- main loop
     def run(self):
         from metomi.isodatetime import data
-        world.fixed_utc_world()
+        world.fixed_utc_world(self.trace.get("zone_minutes", 0))
         world.set_env(world.ENV_CAL, None)
         world.set_env(world.ENV_REF, None)
         trace = self.trace
@@ -1151,7 +1172,7 @@ def run_singletons(trace, picks, alarm=None):
     kernel.import_library()
     if alarm:
         kernel.CALL_ALARM_S = alarm
-    world.fixed_utc_world()
+    world.fixed_utc_world(trace.get("zone_minutes", 0))
     world.set_env(world.ENV_CAL, None)
     world.set_env(world.ENV_REF, None)
     shared = Shared()
